@@ -5,6 +5,9 @@ tier = sys.argv[1] if len(sys.argv) > 1 else 'quick'
 depths = [10, 100, 1000, 10000] + ([100000] if tier == 'thorough' else [])
 def doc_nested(n):
     return json.loads('[' * n + ']' * n)
+# exponential backtracking: a function argument that fails to parse is re-tried through three grammar routes at every level
+for n in [6, 12, 24]:
+    print(json.dumps({'mode': 'parse', 'shape': 'fn-nesting-failing-argument', 'depth': n, 'q': '$[?' + 'f(' * n + '1==1' + ')' * n + ']'}))
 for n in depths:
     shapes = {
         'parens': ('parse', '$[?' + '(' * n + '@.a' + ')' * n + ']', None),
